@@ -164,8 +164,30 @@ func runC10(c *fw.Ctx) {
 	t := wmpt.New(nil, db)
 	m := wl.Model{}
 	n := 2 + r.Intn(9)
+	var deep [][]byte
+	if c.Idx == 3 {
+		// the deepest possible path: a key and 64 neighbours, the i-th sharing exactly i leading nibbles with it - its honest
+		// proof has a branch at every nibble plus the leaf (65 elements)
+		base := g.Key(nil)
+		deep = append(deep, base)
+		for i := 0; i < 64; i++ {
+			nb := append([]byte(nil), base...)
+			if i%2 == 0 {
+				nb[i/2] ^= 0x10 << uint(r.Intn(3)) // differs in the high nibble of byte i/2
+				nb[i/2] ^= 0 // low nibble and the rest may stay: the first difference decides
+			} else {
+				nb[i/2] ^= 0x01 << uint(r.Intn(3))
+			}
+			deep = append(deep, nb)
+		}
+		n = len(deep)
+		c.Count("deepest_path_tries", 1)
+	}
 	for i := 0; i < n; i++ {
 		k := g.Key(m.Keys())
+		if deep != nil {
+			k = deep[i]
+		}
 		v, w := g.Value()
 		if err := wl.Upd(t, k, v, w); err != nil {
 			c.Violate("", "Update failed: %v", err)
@@ -267,6 +289,9 @@ func runC10(c *fw.Ctx) {
 			return
 		}
 		k.honest = append(k.honest, p)
+		if deep != nil {
+			c.Max("honest_proof_elements", int64(len(decProof(p))))
+		}
 	}
 	c.Count("tries", 1)
 	c.Count("honest_proofs_verified", int64(W))
@@ -496,7 +521,7 @@ func init() {
 			return 1280
 		},
 		Run: runC10,
-		Floors: map[string]int64{"tries_with_readded_entries_and_gc": 300, "snapshot_views_checked_after_live_updates": 300, "proof_attempts_before_the_batch_was_written": 300, "tries": 1000, "honest_proofs_verified": 20000, "tamperings": 1000000, "tamper:T9 re-weighting + spliced tail with inflated short-node weights": 100000, "tamper:T2 sum-changing re-weighting": 10000, "tamper:T1 sum-preserving re-weighting": 10000, "tamper:T3 swapped sibling hashes": 10000,
+		Floors: map[string]int64{"tries_with_readded_entries_and_gc": 300, "snapshot_views_checked_after_live_updates": 300, "proof_attempts_before_the_batch_was_written": 300, "deepest_path_tries": 1, "max:honest_proof_elements": 60, "tries": 1000, "honest_proofs_verified": 20000, "tamperings": 1000000, "tamper:T9 re-weighting + spliced tail with inflated short-node weights": 100000, "tamper:T2 sum-changing re-weighting": 10000, "tamper:T1 sum-preserving re-weighting": 10000, "tamper:T3 swapped sibling hashes": 10000,
 			"tamper:T4 honest proof of another block": 10000, "tamper:T5 dropped element": 10000, "tamper:T6 value weight edited": 5000, "tamper:T7 element replaced by a hash node": 10000, "tamper:T8 bit flips": 50000, "rejected_with_error": 100000, "rejected_other_root": 100000, "same_weight_overwrites": 1000, "tamper:T6 long value edited beyond byte 32": 500},
 		Assumptions: []string{
 			"the adversarial half ranges over structured tamperings of honest proofs and random byte edits, not over all byte strings",
